@@ -1960,9 +1960,19 @@ meta:
 				len = scan_meta_key(&source[l->start]);
 				m = meta_new(source, l->start, len);
 				start = l->start + len + 1;
+
+				if (start > l->start + l->len) {
+					// Nothing follows the key inside this line (e.g. the line ends the
+					// range being parsed)
+					start = l->start + l->len;
+				}
+
 				len = l->start + l->len - start;
 
-				if (char_is_line_ending(source[start + len])) {
+				// Strip the line ending that belongs to this line (if any) -- don't
+				// look at the character *after* the line, which is the '\0' when the
+				// source ends without a newline.
+				if (len && char_is_line_ending(source[start + len - 1])) {
 					len--;
 				}
 
